@@ -266,7 +266,7 @@ def _aero(draw, case):
     if draw(st.integers(0, 2)) == 0:
         case['prelude_mach'] = {'Mach': draw(gen.fl(1.1, 4.)), 'rho': draw(gen.fl(0.1, 2.)), 'V': draw(gen.fl(300., 1500.)), 'ainf': draw(gen.fl(250., 400.))}
     case['prelude'] = None
-    if draw(st.integers(0, 2)) == 0:
+    if draw(st.booleans()):
         case['prelude'] = {'beta': round(draw(gen.fl(-1e4, 1e4)), 3), 'gamma': round(draw(gen.fl(-1e3, 1e3)), 3),
                            'aeromu': round(draw(gen.fl(-50., 50.)), 3)}
     case['aeromu'] = round(draw(gen.fl(-50., 50.)), 3)
@@ -334,6 +334,6 @@ SUBS = [
         rule='flow along y vs flow along x on the axis-exchanged flat panel', shards_quick=16),
     Sub('freq_aero', _freq_strategy, check_freq, quick=48, thorough=600,
         rule='Panel.freq(atype=1|2) eigenvalues vs dense non-Hermitian reference on (k0+kA[+kG0], kM)', shards_quick=16),
-    Sub('bay', _bay_strategy, check_bay, quick=64, thorough=1000,
+    Sub('bay', _bay_strategy, check_bay, quick=160, thorough=1500,
         rule='StiffPanelBay.calc_kA (direct coefficients and Mach route) with 0..2 stiffeners: shape, skin-only, bilinear form', shards_quick=16),
 ]
